@@ -143,7 +143,8 @@ pub fn check(case: &Case) -> Outcome {
     let supported = ["gzip", "deflate", "br"].contains(&case.header_value.to_lowercase().as_str());
     let ct = Header { name: "Content-Type".into(), value: "text/html; charset=utf-8".into() };
     let ce = Header { name: case.header_name.clone(), value: case.header_value.clone() };
-    let plain = run_schedule(&case.filters, &[ct.clone()], body.as_bytes(), &Schedule::Whole).out;
+    let plain_run = run_schedule(&case.filters, &[ct.clone()], body.as_bytes(), &Schedule::Whole);
+    let plain = plain_run.out.clone();
     if !supported {
         // unsupported encoding: no filter is created, the (opaque) body passes through untouched
         let opaque = compress(body.as_bytes(), "gzip", 6, 22);
@@ -164,6 +165,10 @@ pub fn check(case: &Case) -> Outcome {
     let r = run_schedule(&case.filters, &[ct, ce], &compressed, &case.schedule);
     if r.created_empty {
         // no applicable filter: nothing is created and the stream passes through
+        if !plain_run.created_empty {
+            out.fail(format!("{} {:?}: no filter chain is created for the compressed response although the filters {} apply to the plain body", case.header_name, case.header_value, Value::from(case.filters.clone())));
+            return out;
+        }
         if r.out != compressed {
             out.fail("no filter applies but the compressed stream was modified".to_string());
         }
@@ -213,6 +218,9 @@ pub fn check(case: &Case) -> Outcome {
     if acted {
         out.class("filters-acted");
     }
+    if case.filters.iter().any(|f| f["action"].as_str().is_some_and(|a| a.ends_with("_text"))) {
+        out.class("with-whole-body-text-filter");
+    }
     if edge_cut {
         out.class("cut-in-codec-header-or-trailer");
     }
@@ -252,8 +260,10 @@ pub fn strategy() -> BoxedStrategy<Case> {
     ]);
     // the last two classes hand the re-encoder more than 64 KiB of poorly compressible text in one call
     let size = pickw(vec![(24u32, (1u16, 0u32)), (4, (1, 3000)), (2, (40, 0)), (2, (200, 20000)), (2, (0, 0)), (1, (1, 70_000)), (1, (2, 100_000))]);
-    (c15::strategy(), enc, pick(vec!["Content-Encoding", "content-encoding", "CONTENT-ENCODING"]), 0u8..12, 10u8..25, schedule_strategy(), size, any::<u64>())
-        .prop_map(|(c, (encoding, header_value), header_name, level, window, schedule, (repeat, noise), noise_seed)| {
+    // whole-body text filters (append / prepend / replace) placed among the HTML filters in 35% of the cases
+    let text = prop_oneof![13 => Just(Vec::new()), 7 => prop::collection::vec((0u8..3, any::<u8>()), 1..3)];
+    (c15::strategy(), enc, pick(vec!["Content-Encoding", "content-encoding", "CONTENT-ENCODING"]), 0u8..12, 10u8..25, schedule_strategy(), size, any::<u64>(), text)
+        .prop_map(|(c, (encoding, header_value), header_name, level, window, schedule, (repeat, noise), noise_seed, text)| {
             let mut nodes = c.doc.clone();
             let mut filters = c.filters.clone();
             if crate::known::is_listed("C14", D7) {
@@ -271,7 +281,19 @@ pub fn strategy() -> BoxedStrategy<Case> {
                 repeat,
                 noise,
                 noise_seed,
-                filters: c.filters.iter().map(|f| f.to_json()).collect(),
+                filters: {
+                    let mut fs: Vec<Value> = c.filters.iter().map(|f| f.to_json()).collect();
+                    for (i, (kind, at)) in text.iter().enumerate() {
+                        let (action, content) = match kind {
+                            0 => ("append_text", format!("<!--t{i}-->")),
+                            1 => ("prepend_text", format!("[t{i} \u{e9}]")),
+                            _ => ("replace_text", format!("<html><head><title>r{i}</title></head><body><div class=\"sel-hit\">R{i}</div></body></html>")),
+                        };
+                        let pos = (*at as usize * (fs.len() + 1)) >> 8;
+                        fs.insert(pos, serde_json::json!({"action": action, "content": content, "id": format!("tf{i}"), "target_hash": "text"}));
+                    }
+                    fs
+                },
                 encoding: encoding.to_string(),
                 header_value: header_value.to_string(),
                 header_name: header_name.to_string(),
@@ -286,7 +308,7 @@ pub fn strategy() -> BoxedStrategy<Case> {
 pub fn run(ctx: &Ctx) -> Report {
     let mut rep = Report::new(
         "C14",
-        "case = generated document (0 B .. ~170 KiB: single, repeated 40x/200x, with up to 100000 incompressible characters, so that single calls of the re-encoder exceed its staging buffer) x filters that find their target x encoding in {gzip, deflate(zlib), br} x producer settings (flate2 level 0..9, brotli quality 0..11, window 10..24) x header spellings \
+        "case = generated document (0 B .. ~170 KiB: single, repeated 40x/200x, with up to 100000 incompressible characters, so that single calls of the re-encoder exceed its staging buffer) x filters that find their target (HTML filters, in 35% of the cases with append_text / prepend_text / replace_text filters placed among them) x encoding in {gzip, deflate(zlib), br} x producer settings (flate2 level 0..9, brotli quality 0..11, window 10..24) x header spellings \
          x schedule over the COMPRESSED stream (whole, byte-wise, strides 1/2/3/7/10/4096, cuts inside the first 12 bytes, generated k-partitions) ; also unsupported encodings (identity, zstd, compress, 'gzip, br', ' gzip'); \
          oracle = an independent decoder instance accepts the output as ONE complete stream with nothing left over and dec(out) == the same filters applied to the plain body in one chunk; unsupported encoding => no chain is created and out == in; \
          non-trivial = the filters changed the document and a cut falls inside the first 10 or the last 8 bytes of the compressed stream; distinct by case hash",
